@@ -77,6 +77,17 @@ Theorem C04_wrap_after_early_requests : forall maxc ops s, wfmap (cs s) ->
 Proof. exact run_unwrapped_prefix. Qed.
 Print Assumptions C04_wrap_after_early_requests.
 
+(* a request weighed 0 by the extractor: rejected exactly when its source is at the limit (whatever other sources hold),
+   and an admitted one changes no count *)
+Theorem C04_zero_weight_request : forall maxc s t, wfmap (cs s) ->
+  match acquire maxc s t 0 with
+  | None => maxc <= get (cs s) t
+  | Some s' => get (cs s) t < maxc /\ (forall k, get (cs s') k = get (cs s) k) /\ total s' = total s /\
+               (forall k, get (cs (release s' t 0)) k = get (cs s) k)
+  end.
+Proof. exact zero_weight_request. Qed.
+Print Assumptions C04_zero_weight_request.
+
 (* once every request has finished the limiter is as new and admits the full maximum again *)
 Theorem C04_drain : forall maxc ops s t n,
   gexec maxc (init, []) ops = Some (s, []) -> Z.of_nat n <= maxc ->
